@@ -10,7 +10,8 @@ WIDE_QUICK = 2000
 PROP = 'C13'
 EXHAUSTIVE = True
 RULE = ('levels 0..0x7F x {non-zero seed, all-zero seed, negative, truncated, wrong level echo, other service, silence, '
-        'pending then seed} x algorithm kinds 0..8 x key reply {positive, negative, silence}; seed lengths 1..8. '
+        'pending then seed, echo with bit 7 set} x algorithm kinds 0..8 x key reply {positive, negative, silence}; seed lengths 1..8; '
+        'the seed reply echoing each of the 256 byte values for 5 levels (quick) / every level (thorough). '
         'non-trivial = a seed request was transmitted (distinct case lines)')
 ASSUMPTIONS = ['the executable algorithm instances compute reversed(seed) ++ extras; any algorithm is covered by the theorem (section variable style: result is opaque)']
 
@@ -31,10 +32,11 @@ def gen_cases(tier, seed):
                          ('zero-one-nonzero', [(10, bytes([0x67, odd & 0xFF]) + bytes(slen - 1) + b'\x01')]),
                          ('negative', [(10, b'\x7f\x27\x33')]), ('truncated', [(10, bytes([0x67, odd & 0xFF]))]),
                          ('wrong-echo', [(10, bytes([0x67, (odd + 2) & 0x7F]) + nz)]), ('even-echo', [(10, bytes([0x67, even & 0xFF]) + nz)]),
+                         ('echo-bit7', [(10, bytes([0x67, (odd | 0x80) & 0xFF]) + nz)]),
                          ('other-service', [(10, b'\x50\x01\x00\x10\x00\x10')]), ('silence', []),
                          ('pending-seed', [(10, b'\x7f\x27\x78'), (20, bytes([0x67, odd & 0xFF]) + nz)])]
                 if tier == 'quick' and ex == 0:
-                    seeds = [seeds[0], seeds[3], seeds[5]]
+                    seeds = [seeds[0], seeds[3], seeds[5], seeds[7]]
                 for sname, srep in seeds:
                     keyreps = [('key-ok', [(1000, bytes([0x67, even & 0xFF]))]), ('key-neg', [(1000, b'\x7f\x27\x35')]), ('key-silence', [])]
                     if sname not in ('nonzero', 'pending-seed') or (tier == 'quick' and level % 16 != 1):
@@ -45,6 +47,16 @@ def gen_cases(tier, seed):
                         cfgv[cl.EX_NEG] = cfgv[cl.EX_INV] = cfgv[cl.EX_UNX] = ex
                         params = rnd.choice([b'', b'\x01\x02'])
                         yield cl.H(cfgv).call(5, [level], [params], srep + krep).case(5000, 'unlock %s/%s' % (sname, kname))
+    # the seed reply echoes every possible byte (one of the 256 is the requested one), a usable seed follows; then a correct key reply
+    for level in ((1, 2, 0x41, 0x7D, 0x7E) if tier == 'quick' else range(1, 0x7F)):
+        odd = level if level % 2 == 1 else level - 1
+        for echo in range(256):
+            for ex in (1, 0):
+                cfgv = list(cl.DEFAULT_CFG)
+                cfgv[cl.ALGO], cfgv[cl.ALGO_PRM] = 3, 5
+                cfgv[cl.EX_NEG] = cfgv[cl.EX_INV] = cfgv[cl.EX_UNX] = ex
+                reps = [(10, bytes([0x67, echo, 0x11, 0x22])), (1000, bytes([0x67, odd + 1]))]
+                yield cl.H(cfgv).call(5, [level], [b''], reps).case(5000, 'unlock, seed reply echoing %02x' % echo)
 
 
 def worker_init():
